@@ -12,16 +12,29 @@
      5  clamps the count to what is left            (offset, min(count, len-offset))
      6  returns the rest of the memory              (offset, len-offset)
      7  returns one byte less than asked            (offset, count-1)  when offset+count <= len
-   each answers OutOfBounds for offset > len.  The first request of a case is made on the
-   implementor (its own get_slice, code 0, is not a library method: answered "not applicable"),
-   the following requests on whatever accessor came back, exactly as in suite C01chain.
+   each answers OutOfBounds for offset > len.
 
-   Wire format: that of C01 (Spec/C01.v) with root kinds 5, 6, 7 and an empty region list. *)
+   Root kind 8 is a CHUNKED implementor (struct Chunked): a memory of L logical bytes that is
+   physically made of chunks of c bytes separated by gaps of g >= 1 bytes that do NOT belong to
+   it (logical byte i lives at base + (i/c)*(c+g) + i mod c).  A VolatileSlice is contiguous, so
+   its get_slice(o, n) answers - as the trait documentation allows - the part of the request
+   that lies in the chunk of o: (base + phys o, min(n, c - o mod c)), and OutOfBounds when
+   o + n > L.  An accessor of size_of::<T>() bytes fabricated from a shorter slice would reach
+   into the gap (or the next chunk): memory the accessor was not derived from.  For this root the
+   checker judges containment against the chunk that owns the accessor's first byte.
+
+   Requests are made on the implementor (its own get_slice, code 0, is not a library method:
+   answered "not applicable") until one is answered with an accessor; the following requests
+   go to whatever accessor came back, exactly as in suite C01chain.
+
+   Wire format: that of C01 (Spec/C01.v) with root kinds 5, 6, 7 and an empty region list, or
+   root kind 8 and the list [c, g] in the place of the region list. *)
 From VM Require Import Prelude.MachInt Prelude.Outcome Prelude.Tok Impl.Volatile Spec.C01 Suite.C01.
 
 Definition IK_CLAMP : N := 5.
 Definition IK_REST : N := 6.
 Definition IK_SHORT : N := 7.
+Definition IK_CHUNK : N := 8.
 
 Definition impl_gs (k A L : N) : get_slice_fn := fun off cnt =>
   if off <=? L then
@@ -31,9 +44,21 @@ Definition impl_gs (k A L : N) : get_slice_fn := fun off cnt =>
     else Val (Err (EOutOfBounds off))
   else Val (Err (EOutOfBounds off)).
 
+(* struct Chunked: physical offset of logical byte off; get_slice *)
+Definition chunk_phys (cc gg off : N) : N := (off / cc) * (cc + gg) + off mod cc.
+Definition chunk_gs (A L cc gg : N) : get_slice_fn := fun off cnt =>
+  if off + cnt <=? L then Val (Ok (VS (A + chunk_phys cc gg off) (N.min cnt (cc - off mod cc))))
+  else Val (Err (EOutOfBounds off)).
+
 (* the case as the checker sees it: a piece of volatile memory at [base, base+len) that offers
-   the trait methods only (kind KRegion: no offset/subslice/split_at of its own) *)
-Record caseimpl := { ci_k : N; ci_case : case01 }.
+   the trait methods only (kind KRegion: no offset/subslice/split_at of its own); for the
+   chunked implementor ci_c / ci_g are the chunk and gap sizes (0 otherwise) *)
+Record caseimpl := { ci_k : N; ci_c : N; ci_g : N; ci_case : case01 }.
+
+Definition ci_gs (ci : caseimpl) : get_slice_fn :=
+  let c := ci_case ci in
+  if ci_k ci =? IK_CHUNK then chunk_gs (c_base c) (c_len c) (ci_c ci) (ci_g ci)
+  else impl_gs (ci_k ci) (c_base c) (c_len c).
 
 Definition impl_geom (c : case01) : geom :=
   {| g_kind := KRegion; g_ridx := 0; g_off := 0; g_len := c_len c; g_esz := 1; g_nelem := 0 |}.
@@ -46,37 +71,92 @@ Definition impl_step (ci : caseimpl) (o : sop) : sobs * rstate :=
   if is_own_get_slice o then (err_obs 7, root)
   else
     match dop_of o with
-    | Some d => finish c root 0 (derive_vm (c_mode c) (impl_gs (ci_k ci) (c_base c) (c_len c)) (c_len c) d)
+    | Some d => finish c root 0 (derive_vm (c_mode c) (ci_gs ci) (c_len c) d)
     | None => (err_obs 7, root)
     end.
 
-Definition run_C01impl (ci : caseimpl) : list sobs :=
-  match c_ops (ci_case ci) with
+(* requests go to the implementor until one is answered with an accessor *)
+Fixpoint run_impl_chain (ci : caseimpl) (ops : list sop) {struct ops} : list sobs :=
+  match ops with
   | [] => []
-  | o :: rest => let '(ob, st') := impl_step ci o in ob :: run_chain (ci_case ci) st' rest
+  | o :: rest =>
+      let '(ob, st') := impl_step ci o in
+      ob :: (if o_class ob =? 0 then run_chain (ci_case ci) st' rest else run_impl_chain ci rest)
   end.
+Definition run_C01impl (ci : caseimpl) : list sobs := run_impl_chain ci (c_ops (ci_case ci)).
 
-(* the checker: the one of C01 (written from the property text), started on the implementor's
-   extent.  The implementor's own get_slice is not judged (the generator never asks for it and
-   the harness answers "not applicable"); a first answer that is an accessor to request 0 is
-   refused outright. *)
-Definition ok_C01impl (ci : caseimpl) (obs : list sobs) : bool :=
+(* ------------------------------------------------------------------ the checker
+   Contiguous implementors (5, 6, 7): the one of C01 (written from the property text), on the
+   implementor's extent [base, base+len).
+   Chunked implementor (8): the memory consists of the chunks only.  An answer that is an
+   accessor must come from a request that names bytes of the memory (logical offsets: o + size
+   <= L), and the bytes it is OBSERVED to designate (off = its pointer minus base, reach = its
+   length / its guard's length) must lie inside ONE chunk, the one that owns its first byte:
+   chunk j = off / (c+g) occupies [j*(c+g), j*(c+g) + min(c, L - j*c)).  Typed / atomic
+   references must be aligned (on the observed address).
+   The implementor's own get_slice is not judged (the generator never asks for it and the
+   harness answers "not applicable"); an answer that is an accessor to request 0 is refused. *)
+Definition chunk_fitsb (L : N) (o : sop) : bool :=
+  let a := s_a o in let sz := ty_size (s_ty o) in
+  match s_rq o with
+  | QAsVolatileSlice => true
+  | QGetRef | QAlignedAsRef | QAlignedAsMut | QGetAtomicRef => a + sz <=? L
+  | QGetArrayRef => a + s_b o * sz <=? L
+  | _ => false
+  end.
+Definition chunk_containedb (cc gg L off reach : N) : bool :=
+  let j := off / (cc + gg) in
+  off + reach <=? j * (cc + gg) + N.min cc (L - j * cc).
+Definition chunk_step_ok (ci : caseimpl) (o : sop) (ob : sobs) : bool :=
   let c := ci_case ci in
-  match c_ops c, obs with
-  | o :: _, ob :: _ => negb (is_own_get_slice o && (o_class ob =? 0))
-  | _, _ => true
-  end && chain_ok c (impl_geom c) (c_ops c) obs.
+  if o_class ob =? 0 then
+    match result_kind KRegion (s_rq o) with
+    | Some rk =>
+        negb (is_own_get_slice o) && chunk_fitsb (c_len c) o && (o_ridx ob =? 0) &&
+        chunk_containedb (ci_c ci) (ci_g ci) (c_len c) (o_off ob) (obs_reach rk o ob) &&
+        alignedb c rk o ob
+    | None => false
+    end
+  else true.
+
+Definition impl_step_ok (ci : caseimpl) (o : sop) (ob : sobs) : bool :=
+  if ci_k ci =? IK_CHUNK then chunk_step_ok ci o ob
+  else negb (is_own_get_slice o && (o_class ob =? 0)) && step_ok (ci_case ci) (impl_geom (ci_case ci)) o ob.
+
+Fixpoint impl_chain_ok (ci : caseimpl) (ops : list sop) (obs : list sobs) {struct ops} : bool :=
+  match ops, obs with
+  | [], [] => true
+  | o :: ops', ob :: obs' =>
+      impl_step_ok ci o ob &&
+      (if o_class ob =? 0 then chain_ok (ci_case ci) (step_geom (impl_geom (ci_case ci)) o ob) ops' obs'
+       else impl_chain_ok ci ops' obs')
+  | _, _ => false              (* one answer per request *)
+  end.
+Definition ok_C01impl (ci : caseimpl) (obs : list sobs) : bool :=
+  impl_chain_ok ci (c_ops (ci_case ci)) obs.
+
+(* the physical extent of the chunked memory: L/c + 1 chunk strides *)
+Definition chunk_span (L cc gg : N) : N := (L / cc + 1) * (cc + gg).
 
 Definition parse_caseimpl (inp : list tok) : option caseimpl :=
   match inp with
-  | TN md :: TN rk :: TN base :: TN len :: TL [] :: ops =>
+  | TN md :: TN rk :: TN base :: TN len :: TL geo :: ops =>
       match parse_ops ops with
       | Some os =>
-          if (IK_CLAMP <=? rk) && (rk <=? IK_SHORT) && (base + len <? W64) && (len <=? ISZ_MAX)
-          then Some {| ci_k := rk;
-                       ci_case := {| c_mode := if md =? 0 then Debug else Release; c_rootk := RK_FAKE;
-                                     c_base := base; c_len := len; c_regions := []; c_ops := os |} |}
-          else None
+          let mk cc gg :=
+            {| ci_k := rk; ci_c := cc; ci_g := gg;
+               ci_case := {| c_mode := if md =? 0 then Debug else Release; c_rootk := RK_FAKE;
+                             c_base := base; c_len := len; c_regions := []; c_ops := os |} |} in
+          match geo with
+          | [] =>
+              if (IK_CLAMP <=? rk) && (rk <=? IK_SHORT) && (base + len <? W64) && (len <=? ISZ_MAX)
+              then Some (mk 0 0) else None
+          | [cc; gg] =>
+              if (rk =? IK_CHUNK) && (1 <=? cc) && (1 <=? gg) && (len <=? ISZ_MAX) &&
+                 (base + chunk_span len cc gg <? W64)
+              then Some (mk cc gg) else None
+          | _ => None
+          end
       | None => None
       end
   | _ => None
@@ -99,4 +179,6 @@ Definition suite_C01impl (inp obs : list tok) : verdict :=
 (* what the theorems assume of a case (all of it enforced by the parser) *)
 Definition wf_caseimpl (ci : caseimpl) : Prop :=
   let c := ci_case ci in
-  c_rootk c = RK_FAKE /\ c_base c + c_len c < W64 /\ c_len c <= ISZ_MAX.
+  c_rootk c = RK_FAKE /\ c_base c + c_len c < W64 /\ c_len c <= ISZ_MAX /\
+  (ci_k ci = IK_CHUNK ->
+   1 <= ci_c ci /\ 1 <= ci_g ci /\ c_base c + chunk_span (c_len c) (ci_c ci) (ci_g ci) < W64).
